@@ -273,6 +273,48 @@ def adjoint_alphabet(n, thorough):
     return A + gl_extras(n)
 
 
+def case_adjoint_complex(case):
+    """gln_adjoint / sln_adjoint on COMPLEX matrices (all Gaussian-integer 2x2 matrices with entries in
+    {0,+-1,+-i}, det 1), called without a dtype, with an explicit complex dtype, and through lie.hom:
+    value vs the matrix of X -> g X g^-1 and homomorphism over every partner."""
+    from geometry_tools import lie
+    alpha = gaussian_sl2()
+    g = alpha[case["i"]]
+    gi = R.inverse(g)
+    v, t = [], 0
+    want = R.gl_adjoint(g, gi)
+    routes = [("gln_adjoint()", lambda x: np.asarray(lie.gln_adjoint(x))),
+              ("gln_adjoint(dtype=complex)", lambda x: np.asarray(lie.gln_adjoint(x, dtype="complex128"))),
+              ("hom.gln_adjoint()", lambda x: np.asarray(lie.hom.gln_adjoint()(x)))]
+    for name, f in routes:
+        got = guard(v, name, lambda: quiet(lambda: f(g)))
+        t += 1
+        if got is None:
+            continue
+        got = np.asarray(got).astype("complex128")
+        if got.shape != want.shape or not np.max(np.abs(got - want)) <= 1e-9:
+            v.append({"key": "adjoint-complex/%s/value" % name.split("(")[0], "msg": "%s of %s differs from the matrix of X -> gXg^-1: %s vs %s" % (name, fmt(g), fmt(got), fmt(want))})
+            continue
+        bad = 0
+        for h in alpha:
+            gh = quiet(lambda: np.asarray(f(g @ h))).astype("complex128")
+            fh = quiet(lambda: np.asarray(f(h))).astype("complex128")
+            t += 2
+            if not np.max(np.abs(gh - got @ fh)) <= 1e-9:
+                bad += 1
+        if bad:
+            v.append({"key": "adjoint-complex/%s/homomorphism" % name.split("(")[0], "msg": "%s: Ad(gh) != Ad(g)Ad(h) for g=%s and %d partners" % (name, fmt(g), bad)})
+    # sln_adjoint on complex input
+    ws = R.sl_adjoint(g, gi)
+    got = guard(v, "sln_adjoint(complex)", lambda: quiet(lambda: np.asarray(lie.sln_adjoint(g))))
+    t += 1
+    if got is not None:
+        got = np.asarray(got).astype("complex128")
+        if got.shape != np.asarray(ws).shape or not np.max(np.abs(got - ws)) <= 1e-9:
+            v.append({"key": "adjoint-complex/sln_adjoint/value", "msg": "sln_adjoint(%s) differs from the matrix of X -> gXg^-1 on sl(2): %s vs %s" % (fmt(g), fmt(got), fmt(ws))})
+    return {"v": v, "t": t, "o": "%d|%d" % (case["i"], len(v)), "nt": bool(np.any(np.imag(g) != 0))}
+
+
 def case_adjoint(case):
     from geometry_tools import lie
     n, i = case["n"], case["i"]
@@ -741,6 +783,10 @@ def run(ctx):
         for n in ([2, 3] if q else [2, 3, 4]):
             for i in range(len(adjoint_alphabet(n, not q))):
                 cases.append({"n": n, "i": i, "thorough": not q})
+        ng = len(gaussian_sl2())
+        ctx.product("adjoint-complex", "checks.c17:case_adjoint_complex", [{"i": i} for i in range(0, ng, 2 if q else 1)],
+                    domains={"matrices": "Gaussian-integer 2x2, entries in {0,+-1,+-i}, det 1 (%d; quick: every second one as g, all as partners)" % ng,
+                             "routes": ["lie.gln_adjoint(g)", "lie.gln_adjoint(g, dtype=complex128)", "lie.hom.gln_adjoint()(g)", "lie.sln_adjoint(g)"]}, chunk=2)
         ctx.product("adjoint-alphabet", "checks.c17:case_adjoint", cases,
                     domains={"n=2": "all integer matrices with entries in [-2,2], det +-1 (%d) + 3 non-unimodular" % len(int_mats_2x2(2, (1, -1))),
                              "n>=3": "elementary matrices E_ij(+-1), adjacent transpositions, a sign change" + ("" if q else ", a third of their pairwise products") + " + 3 non-unimodular",
